@@ -12,6 +12,7 @@ import (
 	"context"
 	"fmt"
 	"math/rand"
+	"os"
 	"regexp"
 	"runtime"
 	"sort"
@@ -405,7 +406,17 @@ func (r *gatedRun) atQuiescence(s sched.Snapshot) error {
 	}
 	if r.sc.Prim == "ctxlock" {
 		// nothing can move by itself now: whoever still waits must have a live context
-		r.rec.ev("quiet", nil)
+		m := tv.M{}
+		if os.Getenv("C13_DEBUG") != "" { // debugging aid: what the quiescence detector saw when a cancelled waiter is still pending
+			r.mu.Lock()
+			for _, p := range r.pend {
+				if p.done {
+					m["dump"] = s.Dump
+				}
+			}
+			r.mu.Unlock()
+		}
+		r.rec.ev("quiet", m)
 	}
 	if r.sc.Prim == "fifomap" && !r.panicked.Load() {
 		for _, p := range r.ctl.Parked() {
